@@ -324,6 +324,17 @@ def installed(sim):
         S.np = old_np
 
 
+class _Null(object):
+    def write(self, *a):
+        return 0
+
+    def flush(self):
+        return None
+
+
+_DEVNULL = _Null()
+
+
 class RunResult(object):
     __slots__ = ("status", "value", "exc", "pending", "next_clock", "log",
                  "sim")
@@ -346,6 +357,8 @@ def run_under(sim, fn, *args, **kwargs):
     """Run fn(*args, **kwargs) with the seam installed; classify the outcome."""
     res = RunResult()
     res.sim = sim
+    old_out = sys.stdout
+    sys.stdout = _DEVNULL       # the code under test prints notes/warnings
     try:
         with installed(sim):
             res.value = fn(*args, **kwargs)
@@ -367,6 +380,8 @@ def run_under(sim, fn, *args, **kwargs):
     except Exception as e:  # the code under test raised
         res.status = "exc"
         res.exc = e
+    finally:
+        sys.stdout = old_out
     res.next_clock = sim.next_clock
     res.log = sim.log
     return res
